@@ -8,6 +8,7 @@ pub mod c07;
 pub mod c08;
 pub mod c09;
 pub mod c10;
+pub mod c13;
 
 use crate::ctx::Ctx;
 
@@ -58,6 +59,7 @@ pub fn run(id: &str, ctx: &mut Ctx) -> bool {
         "C08" => c08::run(ctx),
         "C09" => c09::run(ctx),
         "C10" => c10::run(ctx),
+        "C13" => c13::run(ctx),
         _ => return false,
     }
     true
@@ -99,6 +101,7 @@ pub fn replay_value(id: &str, ctx: &mut Ctx, r: &serde_json::Value) -> bool {
         "C07" => c07::replay(ctx, r),
         "C08" => c08::replay(ctx, r),
         "C10" => c10::replay(ctx, r),
+        "C13" => c13::replay(ctx, r),
         _ => {
             let _ = (ctx, r);
             false
